@@ -45,9 +45,17 @@ Definition ty_is_typevar_any (v: kv) : bool := ty_tag "TypeVarAny" v.
 (* helpers.get_type_origin: typ.__origin__ (for Annotated[t, ...] that is t), else typ *)
 Definition ty_origin (v: kv) : kv :=
   match v with KTuple [KStr _; t] => if ty_is_annotated v then t else v | _ => v end.
-(* get_args, as far as Final[...] needs it *)
+Definition ty_is_union (v: kv) : bool := ty_tag "Optional" v || ty_tag "UnionNone" v.
+(* get_args: Final[t] -> (t,); Optional[X] -> (X, NoneType); the wider union -> (X, Y, NoneType) *)
 Definition ty_args (v: kv) : kv :=
-  match v with KTuple [KStr _; t] => if ty_is_final v then KTuple [t] else KTuple [] | _ => KTuple [] end.
+  match v with
+  | KTuple [KStr _; t] => if ty_is_final v then KTuple [t] else KTuple []
+  | KTuple [KStr _] => if ty_tag "Optional" v then KTuple [KObj 0; ty_nonetype]
+                       else if ty_tag "UnionNone" v then KTuple [KObj 0; KObj 3; ty_nonetype] else KTuple []
+  | _ => KTuple [] end.
+(* x in <tuple / list> *)
+Definition k_in (x c: kv) : res bool :=
+  match c with KTuple l | KList l => Ok (existsb (kv_eqb x) l) | _ => Raise TypeError end.
 
 (* nesting depth: the bound for `while True:` loops that descend into a component of the value *)
 Fixpoint kv_depth (v: kv) : nat :=
